@@ -1,7 +1,8 @@
 (** DSL/PropsLemmas.v - the proofs of the statements of Props/C10..C12 (the Props files only
     restate them and apply these lemmas). *)
 From Coq Require Import String List ZArith Bool Arith.
-From PV.DSL Require Import Syntax Values Target Compile Interp Exec Laws Sound CompileProps Main Faults Causal.
+From PV.DSL Require Import Syntax Values Target Compile Interp Exec Laws Sound CompileProps Main Faults Causal HermMain.
+From PV.Gen Require Import Algorithms_gen.
 Import ListNotations.
 Open Scope string_scope.
 Open Scope list_scope.
@@ -118,4 +119,23 @@ Proof.
   pose proof (trivial_laws O) as L. pose proof (trivial_world_ok O alg W Hp) as WO.
   destruct (@schedule_sound V O (@teq V) L alg W (tsfn O) WO fuel c rs os s1 E NO) as (I1 & _ & _).
   exact (inputs_once I1 nf).
+Qed.
+
+Lemma L_C09_sound_main :
+  forall (V : Type) (O : vops V) (eqv : V -> V -> Prop), vlaws O eqv ->
+  forall (W : xworld V) (sfn : string -> list V -> index -> V),
+  (forall x, In x (xw_inputs W) -> has_at x = false) ->
+  (forall f l l' ix, Forall2 eqv l l' -> eqv (sfn f l ix) (sfn f l' ix)) ->
+  (forall f args ix r, xw_fn W f args ix = Ok r -> eqv (den O r) (sfn f (map (den O) args) ix)) ->
+  (forall a, eqv a (v0 O) -> vis0 O a = true) ->
+  xw_hasoff W = false ->
+  (forall x i n, eqv (vadj O (sfn "diag" [x] (i, i, n))) (sfn "diag" [vadj O x] (i, i, n))) ->
+  forall fuel calls0 rs os s' i tb name ix v,
+    run_all O main_alg (compile main_alg) W fuel (init_state main_alg W calls0) rs = (os, s') ->
+    Forall (fun o => o <> OutOfFuel) os ->
+    nth_error rs i = Some (tb, name, ix) -> nth_error os i = Some (Ok v) ->
+    forall f w, interp O main_alg (SW O W sfn) f (KN name) ix = Some w -> eqv (den O v) w.
+Proof.
+  intros V O eqv L W sfn H1 H2 H3 H4 H5 H6.
+  exact (schedule_value L (@main_world_ok V O eqv L W sfn H1 H2 H3 H4 H5 H6)).
 Qed.
